@@ -156,18 +156,50 @@ def main():
     known = vlib.load_known()
     kf = [k for k in known.get("findings", []) if k["property"] == pid]
 
-    def known_match(r):
+    def known_match_one(r, fail):
         for k in kf:
             m = k.get("match", {})
             if m.get("part") and m["part"] != r["part"]:
                 continue
-            if m.get("pattern") and not re.search(m["pattern"], r["fail"] or ""):
+            if m.get("pattern") and not re.search(m["pattern"], fail or ""):
                 continue
             if m.get("args_pattern") and not re.search(m["args_pattern"], " ".join(map(str, r["case"]["args"]))):
                 continue
             return k
         return None
 
+    def known_match(r):
+        """a run is a known finding only if EVERYTHING it reports is listed: a monitor may report
+        several classified anomalies of one run (joined by ' && '); each must match a listed
+        finding, and a bad status (HANG/BUDGET/...) must be explained by one of them (a pattern
+        that accepts that status prefix)"""
+        fail = r["fail"] or ""
+        if " && " not in fail:
+            return known_match_one(r, fail)
+        m = re.match(r"^(status \w+; )?monitor (.*)$", fail, re.S)
+        if not m:
+            return known_match_one(r, fail)
+        status, msgs = m.group(1) or "", m.group(2).split(" && ")
+        first = None
+        status_explained = not status
+        for msg in msgs:
+            k = known_match_one(r, status + "monitor " + msg) if status else None
+            if k:
+                status_explained = True
+            else:
+                k = known_match_one(r, "monitor " + msg)
+            if not k:
+                return None
+            first = first or k
+        return first if status_explained else None
+
+    if os.environ.get("VERIF_DUMP_FAILS"):
+        # development aid: every failing run with its classification, one JSON object per line
+        with open(os.environ["VERIF_DUMP_FAILS"], "a") as df:
+            for r in fails:
+                k = known_match(r)
+                df.write(json.dumps({"part": r["part"], "fail": r["fail"], "args": r["case"]["args"], "env": r["case"]["env"],
+                                     "known": k["id"] if k else None}) + "\n")
     known_hits = {}
     new_fails = []
     for r in fails:
